@@ -223,6 +223,8 @@ pub struct SimEndpoint {
     pub log: Mutex<Vec<NetEvent>>,
     t0: Mutex<Option<tokio::time::Instant>>,
     conns: Mutex<usize>,
+    /// Requests seen so far per prompt token (drives `RetryThen`).
+    seen: Mutex<BTreeMap<String, u32>>,
 }
 
 fn completion_body(model: &str, content: serde_json::Value) -> String {
@@ -238,6 +240,30 @@ fn completion_body(model: &str, content: serde_json::Value) -> String {
         }]
     })
     .to_string()
+}
+
+/// A status the client library retries: 429 with a rate-limit error object, or a 5xx (JSON or
+/// plain body, alternating: the library does not parse server-error bodies).
+pub fn retryable_response(code: u16, nth: u32, keep_alive: bool) -> Vec<u8> {
+    let reason = match code {
+        429 => "Too Many Requests",
+        500 => "Internal Server Error",
+        502 => "Bad Gateway",
+        503 => "Service Unavailable",
+        _ => "Error",
+    };
+    if code == 429 || nth % 2 == 0 {
+        let ty = if code == 429 { "rate_limit_exceeded" } else { "server_error" };
+        http_response(
+            code,
+            reason,
+            "application/json",
+            &serde_json::json!({"error": {"message": format!("simulated {code}, try again"), "type": ty, "param": null, "code": null}}).to_string(),
+            keep_alive,
+        )
+    } else {
+        http_response(code, reason, "text/plain", &format!("{reason} (simulated)"), keep_alive)
+    }
 }
 
 fn http_response(status: u16, reason: &str, ctype: &str, body: &str, keep_alive: bool) -> Vec<u8> {
@@ -270,6 +296,7 @@ impl SimEndpoint {
             log: Mutex::new(Vec::new()),
             t0: Mutex::new(None),
             conns: Mutex::new(0),
+            seen: Mutex::new(BTreeMap::new()),
         })
     }
 
@@ -414,11 +441,29 @@ impl SimEndpoint {
             if timing.latency_ms > 0 {
                 tokio::time::sleep(std::time::Duration::from_millis(timing.latency_ms)).await;
             }
-            let reply = self
+            let nth = {
+                let mut seen = self.seen.lock().unwrap();
+                let n = seen.entry(token.clone()).or_insert(0);
+                *n += 1;
+                *n
+            };
+            let planned = self
                 .replies
                 .get(&token)
                 .cloned()
                 .unwrap_or(AiReply::Text("OK".into()));
+            // retryable statuses: what this particular request gets
+            let (reply, retryable) = match planned {
+                AiReply::RetryThen { code, times, then } => {
+                    if nth <= times {
+                        (AiReply::Text(String::new()), Some(code))
+                    } else {
+                        (*then, None)
+                    }
+                }
+                AiReply::RetryForever { code } => (AiReply::Text(String::new()), Some(code)),
+                other => (other, None),
+            };
             let ka = self.keep_alive;
             let good = |text: &str| {
                 http_response(
@@ -430,6 +475,22 @@ impl SimEndpoint {
                 )
             };
             let (bytes, cut, reset): (Vec<u8>, Option<usize>, bool) = match &reply {
+                _ if retryable.is_some() => {
+                    let code = retryable.unwrap();
+                    (retryable_response(code, nth, ka), None, false)
+                }
+                AiReply::QuotaExceeded => (
+                    http_response(
+                        429,
+                        "Too Many Requests",
+                        "application/json",
+                        &serde_json::json!({"error": {"message": "simulated: quota exceeded", "type": "insufficient_quota", "param": null, "code": "insufficient_quota"}}).to_string(),
+                        ka,
+                    ),
+                    None,
+                    false,
+                ),
+                AiReply::RetryThen { .. } | AiReply::RetryForever { .. } => unreachable!(),
                 AiReply::Text(t) => (good(t), None, false),
                 AiReply::Status { code, json_body } => {
                     let reason = match code {
@@ -505,7 +566,10 @@ impl SimEndpoint {
                 conn,
                 at_ms: self.now_ms(),
                 token: token.clone(),
-                kind: reply.kind_name().to_string(),
+                kind: match retryable {
+                    Some(code) => format!("retryable_{code}"),
+                    None => reply.kind_name().to_string(),
+                },
                 bytes: written,
             });
             if let Some(c) = cut {
